@@ -406,6 +406,79 @@ func TestC17SessionIDs(t *testing.T) {
 	ev.Count("concurrent_handshakes", int64(n))
 }
 
+// TestC17DumpIsOneView: no torn reads. Writers keep an invariant that holds in every real state of the cache
+// (a command route is only ever filed after its session and removed together with it); a dump taken at any
+// moment must show a state in which it holds: every route listed leads to a session listed in the SAME dump.
+func TestC17DumpIsOneView(t *testing.T) {
+	dumps := 4000 * kit.Scale(1, 6)
+	for _, procs := range []int{2, 4, 16} {
+		old := runtime.GOMAXPROCS(procs)
+		cache := security.NewSessionCache()
+		stop := make(chan struct{})
+		var wg sync.WaitGroup
+		for wri := 0; wri < 4; wri++ {
+			wg.Add(1)
+			go func(wri int) {
+				defer wg.Done()
+				for i := 0; ; i++ {
+					select {
+					case <-stop:
+						return
+					default:
+					}
+					id := fmt.Sprintf("view-%d-%d", wri, i%5)
+					pol := classad.New()
+					cache.Store(security.NewSessionEntry(id, "<addr>", &security.KeyInfo{Data: kit.Pattern(32, 1), Protocol: "AES"}, pol, time.Now().Add(time.Hour), time.Minute, ""))
+					cache.MapCommand("", fmt.Sprintf("<10.0.0.%d:1>", wri), fmt.Sprint(60000+i%5), id)
+					if i%3 == 0 {
+						runtime.Gosched()
+					}
+					cache.Invalidate(id)
+				}
+			}(wri)
+		}
+		torn := ""
+		for d := 0; d < dumps && torn == ""; d++ {
+			dump := cache.DebugDump()
+			listed := map[string]bool{}
+			inMap := false
+			for _, ln := range strings.Split(dump, "\n") {
+				switch {
+				case strings.HasPrefix(ln, "command_map:"):
+					inMap = true
+				case !inMap && strings.HasPrefix(ln, "- id="):
+					f := strings.Fields(strings.TrimPrefix(ln, "- id="))
+					if len(f) > 0 {
+						listed[f[0]] = true
+					}
+				case inMap && strings.Contains(ln, " -> "):
+					sid := strings.TrimSpace(ln[strings.LastIndex(ln, " -> ")+4:])
+					if !listed[sid] {
+						torn = fmt.Sprintf("dump #%d (GOMAXPROCS %d) lists the route %q but not the session it leads to: the two halves of one dump come from different moments", d, procs, strings.TrimSpace(ln))
+					}
+				}
+			}
+			// Snapshot is one view too: no id twice
+			seen := map[string]bool{}
+			for _, e := range cache.Snapshot() {
+				if seen[e.ID()] {
+					torn = "Snapshot lists session " + e.ID() + " twice"
+				}
+				seen[e.ID()] = true
+			}
+		}
+		close(stop)
+		wg.Wait()
+		runtime.GOMAXPROCS(old)
+		ev.Case(fmt.Sprintf("dump-one-view/procs=%d", procs), fmt.Sprintf("dump-view:%d", procs))
+		ev.Count("dumps_inspected", int64(dumps))
+		if torn != "" {
+			kit.Violation("C17", torn, map[string]any{"dump_view": procs})
+			t.Fatalf("C17 violated: %s", torn)
+		}
+	}
+}
+
 // TestC17LostStore: the narrow window directly. An expired entry sits under id X; four resumption-style
 // lookups of X run against one Store of a fresh entry for X. When all have returned the fresh entry must
 // be there: a lookup that judged the OLD entry expired may not remove the NEW one.
